@@ -45,6 +45,12 @@ def generate(rng, tier):
           ns_case("ž" * 9, "multibyte-over-limit"), ns_case("a" * 15 + "é", "multibyte-crossing-limit"), ns_case("😀" * 4, "4byte-at-limit"),
           ns_case("a" * 12 + "😀", "4byte-ending-at-16"), ns_case("a" * 13 + "😀", "4byte-crossing"), ns_case("\x00", "nul"),
           ns_case("a\x00b", "nul-inside"), ns_case("é", "first-offender"), ns_case("ab\x7fcd\x01", "first-offender-of-two")]
+    # lengths far beyond the limit, in particular around multiples of 256 and 65 536 (a length narrowed to u8/u16
+    # before the range check would wrap), with printable and non-printable content
+    for L in [18, 31, 32, 33, 255, 256, 257, 258, 260, 261, 271, 272, 273, 300, 511, 512, 513, 528, 1024, 1025, 4097, 65535, 65536, 65537, 65541, 65552]:
+        cs.append(ns_case("a" * L, "very-long"))
+        cs.append(ns_case("alice" + "x" * 11 + "\x01" * (L - 16) if L > 16 else "a" * L, "very-long-junk-after-16"))
+        cs.append(ns_case("é" * (L // 2) + "a" * (L % 2), "very-long-multibyte"))
     for code in range(0, 0x82):
         for pos in (0, 7, 15):
             s = "b" * pos + chr(code) + "b" * (15 - pos)
